@@ -281,6 +281,14 @@ def flavours_and_mutation(run: lib.Run, audit: dict, widen: bool = False):
     cases += list(gc.random_cases(run.seed * 1409 + 14, 700 if quick else 7000, hostile=0.1, rel=0.3, nested=0.3))
     if widen:        # an obligation about the API flavours no longer checks: search further for inputs on which they differ
         cases += list(gc.random_cases(run.seed * 1409 + 15, 1400 if quick else 7000, hostile=0.1, rel=0.3, nested=0.3))
+    # every case with a relationship checker also runs with a backend that FAILS on every lookup (sync: raises in the call; async: the
+    # coroutine / awaitable raises when resolved): the flavours must still agree — a Decision in all of them
+    twins = []
+    for j, (pol, req, cfg) in enumerate(cases):
+        if isinstance(cfg.get("rel"), dict) and (cfg["rel"].get("table") or cfg["rel"].get("default") is not None):
+            twins.append((pol, req, {**cfg, "rel": {**cfg["rel"], "table": [], "default": None,
+                                                    "raise_with": ["RuntimeError", "TimeoutError", "asyncio.TimeoutError", "OSError", "KeyError"][j % 5]}}))
+    cases += twins
     for i, (pol, req, cfg) in enumerate(cases):
         cfg = {**cfg, "metrics": True, "logger": True}
         pol_before, req_before = proto.canon(pol), proto.canon(req)
@@ -288,6 +296,8 @@ def flavours_and_mutation(run: lib.Run, audit: dict, widen: bool = False):
         for fl in FLAVOURS:
             outs[fl] = real.run_guard(pol, req, cfg, fl)
         run.count(gc.outcome_class(outs["sync"]))
+        if isinstance(cfg.get("rel"), dict) and cfg["rel"].get("default") is None and not cfg["rel"].get("table"):
+            run.count("rel-backend-fails-on-every-lookup")
         nontrivial = "ok" in outs["sync"] and outs["sync"]["ok"]["reason"] in ("matched", "explicit_deny", "obligation_failed")
         run.case([pol, req, cfg], nontrivial, {"policy": pol, "request": req, "cfg": cfg, "sync": outs["sync"]} if i % 200 == 0 else None)
         ref = json.dumps(outs["sync"], sort_keys=True)
